@@ -766,7 +766,7 @@ def opSerde (rest : List String) : M String := do
           let back := match de io.parse (.str cs) with
             | .ok q => "OK:" ++ showPurl io.typeStr q ++ ":" ++ tf (io.beq q p)
             | .error _ => "ERR:serde"
-          return s!"OK:{showPurl io.typeStr p} json={hS j} isstr=T jstr={hS cs} s={hS cs} back={back}"
+          return s!"OK:{showPurl io.typeStr p} json={hS j} isstr=T jstr={hS cs} s={hS cs} rec1=str:{hS cs} rec0=str:{hS cs} back={back}"
         | .ok _ => return "OK:" ++ showPurl io.typeStr p ++ " isstr=F"
     match shape with
     | "S" => go ioS
@@ -774,7 +774,7 @@ def opSerde (rest : List String) : M String := do
     | _ => return "NA"
   | "pt" =>
     let t ← mkPkg (← argAt rest 2)
-    return s!"json={hS (jsonQuote t.serdeName)} back=T"
+    return s!"json={hS (jsonQuote t.serdeName)} back=T rec1=variant:{hS t.serdeName} rec0=variant:{hS t.serdeName}"
   | x => throw s!"BADREQ bad serde op {x}"
 
 /-! ### dispatch -/
